@@ -775,7 +775,9 @@ def rule_oneshot(ctx):
         for h in t.handlers:
             if h.type is not None and norm(h.type).endswith('EndOfStreamError'):
                 empties = [st for st in h.body if (isinstance(st, ast.Assign) and norm(st.value) in ('null', "b''")) or
-                           (isinstance(st, ast.Return) and norm(st.value) in ('null', "b''"))]
+                           (isinstance(st, ast.Return) and norm(st.value) in ('null', "b''")) or
+                           (isinstance(st, ast.Return) and isinstance(st.value, ast.Tuple) and st.value.elts and
+                            norm(st.value.elts[-1]) in ('null', "b''"))]
                 if empties and not raises_in(h.body):
                     guarded = True
                 else:
